@@ -7,6 +7,7 @@ import (
 	"sync/atomic"
 	"time"
 
+	"github.com/go-git/go-git/v6/internal/verifhook"
 	"github.com/go-git/go-git/v6/x/fdpool"
 )
 
@@ -88,6 +89,7 @@ func NewWithPool(open func() (ReadAtCloser, error), gracePeriod time.Duration, p
 func (s *SharedFile) Acquire() (ReadAtCloser, error) {
 	s.mu.Lock()
 	if s.closed {
+		s.verifEmit("AcquireClosed")
 		s.mu.Unlock()
 		return nil, ErrClosed
 	}
@@ -109,7 +111,9 @@ func (s *SharedFile) Acquire() (ReadAtCloser, error) {
 	s.gen++
 	file := s.file
 	pool := s.pool
+	s.verifEmit("Acquire")
 	s.mu.Unlock()
+	verifhook.Yield(s, "acquire-before-touch")
 
 	// Touch after releasing s.mu: SharedFile never holds s.mu
 	// while calling into the pool (see Acquire and Close), so
@@ -132,6 +136,7 @@ func (s *SharedFile) Acquire() (ReadAtCloser, error) {
 func (s *SharedFile) Release() {
 	s.mu.Lock()
 	defer s.mu.Unlock()
+	defer s.verifEmit("Release")
 
 	if s.refs == 0 {
 		return
@@ -164,6 +169,7 @@ func (s *SharedFile) Release() {
 	s.timer = time.AfterFunc(s.gracePeriod, func() {
 		s.mu.Lock()
 		defer s.mu.Unlock()
+		defer s.verifEmit("TimerFire")
 		// Discard if state advanced since this timer was scheduled.
 		if s.closed || s.gen != gen || s.refs > 0 || s.file == nil {
 			return
@@ -191,6 +197,7 @@ func (s *SharedFile) IsClosed() bool { return s.isClosed.Load() }
 func (s *SharedFile) Pinned() bool {
 	s.mu.Lock()
 	defer s.mu.Unlock()
+	defer s.verifEmit("Pinned")
 	return s.refs > 0
 }
 
@@ -228,7 +235,9 @@ func (s *SharedFile) Close() error {
 		s.file = nil
 	}
 	pool := s.pool
+	s.verifEmit("Close")
 	s.mu.Unlock()
+	verifhook.Yield(s, "close-before-forget")
 
 	if pool != nil {
 		pool.Forget(&s.poolHandle)
@@ -259,6 +268,7 @@ func (s *SharedFile) Close() error {
 func (s *SharedFile) ReleaseNow() error {
 	s.mu.Lock()
 	defer s.mu.Unlock()
+	defer s.verifEmit("ReleaseNow")
 
 	if s.closed {
 		return nil
